@@ -254,7 +254,7 @@ func (h *vC34Harness) fresh(kind string) *common.Address {
 }
 
 func (h *vC34Harness) honestRaw(n *vC34Node) []byte {
-	key := string(n.Custodian.PublicSpendKey[:]) + string(n.Payee.PublicSpendKey[:]) + string(n.Signer.PublicSpendKey[:])
+	key := string(n.Custodian.PublicSpendKey[:]) + string(n.Custodian.PublicViewKey[:]) + string(n.Payee.PublicSpendKey[:]) + string(n.Payee.PublicViewKey[:]) + string(n.Signer.PublicSpendKey[:])
 	if raw := h.raws[key]; raw != nil {
 		return raw
 	}
@@ -361,6 +361,23 @@ func (h *vC34Harness) honest(st *vC34State) *vC34Base {
 		n := &vC34Node{Custodian: h.priv[mn.Custodian], Payee: h.priv[mn.Payee], Signer: h.signer[mn.Custodian]}
 		if changePayee {
 			n.Payee = h.fresh("payee")
+		}
+		// now and then the retained entry comes back under another view key of the same spend key: by address that
+		// is a new custodian (or a changed payee) and has its price
+		switch rng.Intn(12) {
+		case 0:
+			c := *n.Custodian
+			v := h.fresh("view")
+			c.PrivateViewKey, c.PublicViewKey = v.PrivateViewKey, v.PublicViewKey
+			h.priv[vC34Pub(&c)] = &c
+			h.signer[vC34Pub(&c)] = n.Signer
+			n.Custodian = &c
+		case 1:
+			p := *n.Payee
+			v := h.fresh("view")
+			p.PrivateViewKey, p.PublicViewKey = v.PrivateViewKey, v.PublicViewKey
+			h.priv[vC34Pub(&p)] = &p
+			n.Payee = &p
 		}
 		return n
 	}
